@@ -4,6 +4,7 @@ package c12
 
 import (
 	"bytes"
+	"encoding/json"
 	"fmt"
 	"os"
 	"path/filepath"
@@ -19,8 +20,8 @@ import (
 func Spec() *run.Spec {
 	return &run.Spec{
 		ID: "C12", Level: "exploration",
-		Rule: "phase histories: case = one edit history of 5-80 operations through the graph.Instance methods the HTTP handlers call (CreateNode over every registered node type incl. harness-registered order-sensitive array / formatting nodes, ConnectNodes incl. bursts that take array inputs to 0-15 entries, DeleteNodeInputConnection, UpdateParameter for every parameter type (image uploads: PNGs of every colour model from Go's default encoder, and foreign encodings: JPEG, PNGs written with no / fastest / best compression, PNGs with tEXt / pHYs / tIME chunks; the same bytes also as File values), SetName/SetDescription, SetNodeAsProducer, SetMetadata/DeleteMetadata, DeleteNode of nodes nothing depends on (every other time after a nodes.<id>.position metadata entry was posted for it, which stays behind; a fifth of the posted positions are for ids that no node ever had), generating an artifact mid-history), with intermediate saves like the editor's autosave (App.Schema() after every edit / after a random fifth of the edits / never; every tenth intermediate file is itself loaded into a fresh application and compared with the graph at that moment), starting from an empty application or from a hand-built App.Files graph; " +
-			"then S1 = App.Schema(), a fresh generator.App applies S1, and the two applications are compared through public observers (node ids and types, per node the map input name -> dependency id:port with array inputs by position, parameter ToMessage()/name/Schema(), producers, metadata tree, application fields), every producer's artifact is generated on both sides and compared, and S2 = fresh.Schema() must equal S1 byte for byte. " +
+		Rule: "phase histories: case = one edit history of 5-80 operations through the graph.Instance methods the HTTP handlers call (CreateNode over every registered node type incl. harness-registered order-sensitive array / formatting nodes, ConnectNodes incl. bursts that take array inputs to 0-15 entries, DeleteNodeInputConnection, UpdateParameter for every parameter type (image uploads: PNGs of every colour model from Go's default encoder, and foreign encodings: JPEG, PNGs written with no / fastest / best compression, PNGs with tEXt / pHYs / tIME chunks; the same bytes also as File values), SetName/SetDescription, SetNodeAsProducer, SetMetadata/DeleteMetadata (positions, notes, camera, custom trees; half of the values are at the edges of JSON: empty array, empty object, nested empties 1-4 deep, arrays of empties, objects like {tags:[],groups:[{members:[]}]}, null, empty string / 0 / false, numbers around 2^53, 1e21, -0, MaxFloat64, non-ASCII / empty / odd keys, nesting 5-16 deep; posted as fields of nodes.<id> and notes.<k> and under custom.*), DeleteNode of nodes nothing depends on (every other time after a nodes.<id>.position metadata entry was posted for it, which stays behind; a fifth of the posted positions are for ids that no node ever had), generating an artifact mid-history), with intermediate saves like the editor's autosave (App.Schema() after every edit / after a random fifth of the edits / never; every tenth intermediate file is itself loaded into a fresh application and compared with the graph at that moment), starting from an empty application or from a hand-built App.Files graph; " +
+			"then S1 = App.Schema(), a fresh generator.App applies S1, and the two applications are compared through public observers (node ids and types, per node the map input name -> dependency id:port with array inputs by position, parameter ToMessage()/name/Schema(), producers, metadata tree, application fields), every producer's artifact is generated on both sides and compared, and S2 = fresh.Schema() must equal S1 byte for byte. The harness keeps a mirror of every SetMetadata / DeleteMetadata call; the tree the edited application hands out, the metadata in the saved file, the tree of the reloaded application, every node's Schema() metadata and Schema().Notes (edited and reloaded) must equal the mirror as canonical JSON ([] is not null, {} is not null). " +
 			"Non-trivial: the saved graph has an array input with >= 10 connections or >= 3 parameter types. Distinctness: start state / node-count bucket / longest array bucket / parameter-type count / producer count / deletions / metadata. " +
 			"phase large-arrays: one array input of an order-sensitive harness node receives 352, 1000-1200, 256, 600, 257, 400, 100, 255 (then also random 100-1200) connections from 3-12 sources (parameters and harness nodes of the element type, random picks), with 2-4 disconnects in the middle, a few intermediate saves (one of them reloaded and compared, mostly past position 256), a text producer over the array where the node is string-valued; then the same save / reload / compare / re-save / artifact checks. " +
 			"phase ufo: the shipped examples/graphs/ufo.json: load -> save must reproduce the file, S1 into three fresh applications (structure, S2 == S1, artifacts; a producer whose three artifacts are not pairwise identical is excluded as non-deterministic; .glb compared after parsing).",
@@ -37,21 +38,30 @@ func Spec() *run.Spec {
 			"thorough": {"large_arrays_ge256": 50, "large_arrays_ge352": 35, "large_arrays_ge1000": 8, "large_array_connections": 30000},
 		},
 		MinObserved: map[string]int64{
-			"saved_graphs_array_ge10": 20,
-			"artifacts_compared":      100,
-			"parameter_value_classes": 20,
-			"node_types_created":      60,
-			"op_delete_node":          20,
-			"op_disconnect_array":     10,
-			"op_set_metadata":         50,
-			"reloads":                 100,
-			"ufo_producers_compared":  1,
-			"ufo_file_reproduced":     1,
-			"parameters_compared":     200,
+			"saved_graphs_array_ge10":                                   20,
+			"artifacts_compared":                                        100,
+			"parameter_value_classes":                                   20,
+			"node_types_created":                                        60,
+			"op_delete_node":                                            20,
+			"op_disconnect_array":                                       10,
+			"op_set_metadata":                                           50,
+			"reloads":                                                   100,
+			"ufo_producers_compared":                                    1,
+			"ufo_file_reproduced":                                       1,
+			"parameters_compared":                                       200,
+			"intermediate_saves":                                        2000,
+			"intermediate_saves_reloaded_and_compared":                  100,
+			"posted_metadata_trees_compared_by_content":                 400,
+			"saved_graphs_with_an_empty_array_in_metadata":              60,
+			"saved_graphs_with_an_empty_object_in_metadata":             60,
+			"saved_graphs_with_null_in_metadata":                        60,
+			"saved_graphs_with_metadata_nested_8_deep":                  10,
+			"saved_graphs_with_non_ascii_metadata_keys":                 30,
+			"metadata_edge_classes":                                     12,
 			"saved_graphs_with_an_image_uploaded_in_a_foreign_encoding": 30,
 			"image_upload_classes_in_a_foreign_encoding":                4,
 			"saved_graphs_with_metadata_of_a_deleted_node":              50,
-			"saved_graphs_with_metadata_of_an_id_that_never_existed":    15,
+			"saved_graphs_with_metadata_of_an_id_that_never_existed":    10,
 			"array_connections_compared":                                300,
 		},
 		Phases: []run.Phase{
@@ -190,6 +200,11 @@ func checkReload(c *run.Ctx, res *run.Result, h *hist, final bool) {
 		violate("observer-panic", p.Site, "reloaded application", "reading the reloaded application through its observers panicked: "+p.Value+"\n"+p.Stack)
 		return
 	}
+	// ---- metadata by content: what was posted / the edited graph / the file / the reloaded graph ----
+	// The mirror of the SetMetadata / DeleteMetadata calls is the reference: a tree that
+	// is already changed when the edited application hands it out would otherwise save,
+	// reload and re-save consistently. canon() is JSON: [] is not null, {} is not null.
+	checkPostedMetadata(res, h, s1, orig, re)
 	diffs := diff(orig, re)
 	changedParams := map[string]bool{}
 	for _, d := range diffs {
@@ -356,6 +371,72 @@ func checkReload(c *run.Ctx, res *run.Result, h *hist, final bool) {
 		first = first[:10]
 	}
 	res.Sample = map[string]any{"start": h.start, "ops": len(h.ops), "first_ops": first, "nodes": len(orig.Nodes), "longest_array_input": maxArr, "parameter_types": len(ptypes), "producers": sortedKeys(orig.Producers), "file_bytes": len(s1)}
+}
+
+func checkPostedMetadata(res *run.Result, h *hist, file []byte, orig, re *snapshot) {
+	if h.meta == nil {
+		return
+	}
+	violate := func(class, site, detail string) {
+		res.Violate(class, site, "metadata posted through SetMetadata", detail, h.witness())
+	}
+	var posted any = h.meta
+	if len(h.meta) == 0 {
+		posted = nil // an absent tree and an empty tree are the same tree
+	}
+	want := canon(posted)
+	res.Count("posted_metadata_trees_compared_by_content", 1)
+	if orig.Metadata != want {
+		violate("edited-graph-metadata-differs-from-what-was-posted", "graph.Instance.EncodeToAppSchema (NestedSyncMap.Data) of the edited graph",
+			fmt.Sprintf("the metadata tree the edited application hands out differs from what was posted: %s", firstDiff(want, orig.Metadata)))
+	}
+	var saved struct {
+		Data struct {
+			Metadata map[string]any `json:"metadata"`
+		} `json:"data"`
+	}
+	if err := json.Unmarshal(file, &saved); err == nil {
+		var sm any = saved.Data.Metadata
+		if len(saved.Data.Metadata) == 0 {
+			sm = nil
+		}
+		if got := canon(sm); got != want {
+			violate("saved-metadata-differs-from-what-was-posted", "App.Schema (metadata in the saved file)",
+				fmt.Sprintf("the metadata in the saved file differs from what was posted: %s", firstDiff(want, got)))
+		}
+	}
+	if re.Metadata != want {
+		violate("reloaded-metadata-differs-from-what-was-posted", "graph.Instance metadata after reload",
+			fmt.Sprintf("the metadata tree of the reloaded application differs from what was posted: %s", firstDiff(want, re.Metadata)))
+	}
+	// per node (NodeInstanceSchema().Metadata) and the notes (Schema().Notes)
+	nm, _ := h.meta["nodes"].(map[string]any)
+	for _, id := range sortedKeys(orig.Nodes) {
+		wantN := ""
+		if v, ok := nm[id]; ok && v != nil {
+			wantN = canon(v)
+		}
+		if orig.NodeMeta[id] != wantN {
+			violate("edited-graph-metadata-differs-from-what-was-posted", "graph.Instance.NodeInstanceSchema of the edited graph",
+				fmt.Sprintf("node %s: Schema() metadata %s, posted %s", id, clip(orig.NodeMeta[id], 300), clip(wantN, 300)))
+		}
+		if _, ok := re.Nodes[id]; ok && re.NodeMeta[id] != wantN {
+			violate("reloaded-metadata-differs-from-what-was-posted", "graph.Instance.NodeInstanceSchema after reload",
+				fmt.Sprintf("node %s: Schema() metadata after reload %s, posted %s", id, clip(re.NodeMeta[id], 300), clip(wantN, 300)))
+		}
+	}
+	wantNotes := "null"
+	if notes, ok := h.meta["notes"].(map[string]any); ok {
+		wantNotes = canon(notes)
+	}
+	if orig.Notes != wantNotes {
+		violate("edited-graph-metadata-differs-from-what-was-posted", "graph.Instance.Schema notes of the edited graph",
+			fmt.Sprintf("Schema().Notes %s, posted %s", clip(orig.Notes, 300), clip(wantNotes, 300)))
+	}
+	if re.Notes != wantNotes {
+		violate("reloaded-metadata-differs-from-what-was-posted", "graph.Instance.Schema notes after reload",
+			fmt.Sprintf("Schema().Notes after reload %s, posted %s", clip(re.Notes, 300), clip(wantNotes, 300)))
+	}
 }
 
 func imin(a, b int) int {
